@@ -178,15 +178,28 @@ fn jerr(e: jbk::Error) -> String {
 }
 
 pub fn dump_container(c: &jbk::reader::Container) -> Result<Vec<String>, String> {
-    dump_container_with(c, false)
+    dump_container_with(c, false, 0)
+}
+
+/// the same dump with the contents fetched in another order (1 = last entry first, 2 = highest pack
+/// id first, 3 = lowest pack id first); lines are returned in entry order whatever the access order
+pub fn dump_in_order(path: &Path, order: u8) -> Vec<String> {
+    match util::guarded(|| {
+        let c = jbk::reader::Container::new(path).map_err(jerr)?;
+        dump_container_with(&c, false, order)
+    }) {
+        Ok(Ok(v)) => v,
+        Ok(Err(e)) => vec![format!("err:{}", e)],
+        Err(p) => vec![p],
+    }
 }
 
 /// the same dump obtained through the typed property builders only (no `AnyBuilder`)
 pub fn dump_container_typed(c: &jbk::reader::Container) -> Result<Vec<String>, String> {
-    dump_container_with(c, true)
+    dump_container_with(c, true, 0)
 }
 
-fn dump_container_with(c: &jbk::reader::Container, typed_only: bool) -> Result<Vec<String>, String> {
+fn dump_container_with(c: &jbk::reader::Container, typed_only: bool, order: u8) -> Result<Vec<String>, String> {
     let mut out = vec![];
     let index = c.get_index_for_name("main").map_err(jerr)?.ok_or("noindex")?;
     let builder = if typed_only {
@@ -199,6 +212,7 @@ fn dump_container_with(c: &jbk::reader::Container, typed_only: bool) -> Result<V
     // second read path: the typed property builders a schema-specific reader uses
     // (`Property::as_builder`, what `layout_builder!` expands to)
     let typed = TypedBuilder::new(index.get_store(c.get_entry_storage()).map_err(jerr)?, c.get_value_storage().as_ref())?;
+    let mut metas = vec![];
     for i in 0..count {
         let (tname, tnum, taddr) = index.get_entry(&typed, jbk::EntryIdx::from(i)).map_err(jerr)?.ok_or("noentry-typed")?;
         let (name, num, addr) = match &builder {
@@ -211,35 +225,50 @@ fn dump_container_with(c: &jbk::reader::Container, typed_only: bool) -> Result<V
             }
             None => (tname.clone(), tnum, taddr),
         };
-        let bytes = match c.get_bytes(addr).map_err(jerr)? {
-            None => "nopack".to_string(),
-            Some(jbk::reader::MayMissPack::MISSING(pi)) => format!("missing:{}:{}", crate::out::hex(pi.uuid.as_bytes()), pi.pack_location.as_str()),
-            Some(jbk::reader::MayMissPack::FOUND(None)) => "nocontent".to_string(),
-            Some(jbk::reader::MayMissPack::FOUND(Some(region))) => {
-                let mut v = vec![];
-                use std::io::Read;
-                region.stream().read_to_end(&mut v).map_err(|e| format!("io:{e}"))?;
-                format!("{}:{:016x}", v.len(), crate::out::fnv(&v))
-            }
-        };
         // both read paths must tell the same thing; a difference shows in the dump
         let typed_note = if tname[..] == name[..] && tnum == num && taddr == addr {
             String::new()
         } else {
             format!(" typed-builders-read name={} num={} addr={}:{}", crate::out::hex(&tname), tnum, taddr.pack_id.into_u16(), taddr.content_id.into_u32())
         };
-        out.push(format!(
-            "e{} name={} num={} addr={}:{} data={}{}",
-            i,
-            crate::out::hex(&name),
-            num,
-            addr.pack_id.into_u16(),
-            addr.content_id.into_u32(),
-            bytes,
-            typed_note
-        ));
+        metas.push((name, num, addr, typed_note));
+        if order == 0 {
+            // entry by entry: values, then the content
+            let b = fetch(c, addr)?;
+            let m = metas.last().unwrap();
+            out.push(format!("e{} name={} num={} addr={}:{} data={}{}", i, crate::out::hex(&m.0), m.1, addr.pack_id.into_u16(), addr.content_id.into_u32(), b, m.3));
+        }
+    }
+    if order != 0 {
+        let mut idx: Vec<usize> = (0..metas.len()).collect();
+        match order {
+            1 => idx.reverse(),
+            2 => idx.sort_by_key(|i| std::cmp::Reverse(metas[*i].2.pack_id.into_u16())),
+            _ => idx.sort_by_key(|i| metas[*i].2.pack_id.into_u16()),
+        }
+        let mut bytes: Vec<String> = vec![String::new(); metas.len()];
+        for i in idx {
+            bytes[i] = fetch(c, metas[i].2)?;
+        }
+        for (i, m) in metas.iter().enumerate() {
+            out.push(format!("e{} name={} num={} addr={}:{} data={}{}", i, crate::out::hex(&m.0), m.1, m.2.pack_id.into_u16(), m.2.content_id.into_u32(), bytes[i], m.3));
+        }
     }
     Ok(out)
+}
+
+fn fetch(c: &jbk::reader::Container, addr: jbk::ContentAddress) -> Result<String, String> {
+    Ok(match c.get_bytes(addr).map_err(jerr)? {
+        None => "nopack".to_string(),
+        Some(jbk::reader::MayMissPack::MISSING(pi)) => format!("missing:{}:{}", crate::out::hex(pi.uuid.as_bytes()), pi.pack_location.as_str()),
+        Some(jbk::reader::MayMissPack::FOUND(None)) => "nocontent".to_string(),
+        Some(jbk::reader::MayMissPack::FOUND(Some(region))) => {
+            let mut v = vec![];
+            use std::io::Read;
+            region.stream().read_to_end(&mut v).map_err(|e| format!("io:{e}"))?;
+            format!("{}:{:016x}", v.len(), crate::out::fnv(&v))
+        }
+    })
 }
 
 /// schema-specific reader of the harness containers (name: array, num: unsigned, content: address)
